@@ -418,6 +418,10 @@ def sign_tests_exact(ctx, rule):
             pass
     q = _Quiet()
     type_find_turns(q)
+    try:
+        _r1_rest(q)                     # the compiled kernels and the FKM loop are typed with the same lattice
+    except AnalysisError:
+        pass                            # (what cannot be typed is R-C03-1's business)
     seen = set()
     n = 0
     for fi, s, c, what in q.raw_products:
@@ -430,7 +434,7 @@ def sign_tests_exact(ctx, rule):
                      "by 1e-165 are)" % (what, norm_text(c)), text="raw product " + norm_text(c))
     ft = ctx.prog.func(GEN + ":find_turns")
     if not n:
-        ctx.holds(ft, ft.node, "find_turns and its helpers compare no product of raw differences with zero")
+        ctx.holds(ft, ft.node, "find_turns and its helpers compare no product of raw differences with zero (find_turns, its helpers, the kernels)")
 
 
 def type_find_turns(ctx):
